@@ -15,6 +15,8 @@ def check(model: Model, run: Run) -> None:
     # extractor cannot follow
     purity(model, run, None)
     written_as_held(model, run)
+    from ..tlvcheck import string_encoding_defaults
+    string_encoding_defaults(model, run, "W19-string-encoding-defaults-are-utf8")
     from ..readerrules import lemma_no_deferred_loop_capture
     lemma_no_deferred_loop_capture(model, run, ("sansldap._messages", "sansldap._controls", "sansldap._filter", "sansldap._authentication", "sansldap.asn1"),
                                    "W18-no-deferred-capture-of-loop-variables", "elements of a repeated component are all decoded from (or encoded as) the last one")
